@@ -45,7 +45,7 @@ fn encode_with(json: &str, dtype: &str, shape: &[u64], fill: &[u8], data: &[Vec<
 pub fn exec(line: &str) -> String {
     let (v, m) = parse_line(line);
     if v.get(1).map(|s| s == "vdec").unwrap_or(false) { return exec_vdec(&m); }
-    if v.get(1).map(|s| s == "chains" || s == "chaindec").unwrap_or(false) { return crate::c03c::exec(line); }
+    if v.get(1).map(|s| s == "chains" || s == "chaindec" || s == "chainpd").unwrap_or(false) { return crate::c03c::exec(line); }
     guarded(|| {
         let json = String::from_utf8(unhex(&m["json"])).unwrap();
         let mds: Vec<MetadataV3> = match serde_json::from_str(&json) { Ok(x) => x, Err(_) => return "err-json".into() };
@@ -131,6 +131,13 @@ pub fn generate(tier: &str, seed: u64) -> Vec<String> {
             for i in (1..rank).rev() { let j = rng.below(i as u64 + 1) as usize; perm.swap(i, j); }
             json.push(format!("{{\"name\":\"transpose\",\"configuration\":{{\"order\":[{}]}}}}", perm.iter().map(|x| x.to_string()).collect::<Vec<_>>().join(",")));
             model.push(format!("transpose:{}", nl(&perm)));
+            // a second array->array codec: it must be handed the representation the FIRST one produced (the permuted shape)
+            if rank >= 2 && rng.chance(1, 3) {
+                let mut perm2: Vec<usize> = (0..rank).collect();
+                for i in (1..rank).rev() { let j = rng.below(i as u64 + 1) as usize; perm2.swap(i, j); }
+                json.push(format!("{{\"name\":\"transpose\",\"configuration\":{{\"order\":[{}]}}}}", perm2.iter().map(|x| x.to_string()).collect::<Vec<_>>().join(",")));
+                model.push(format!("transpose:{}", nl(&perm2)));
+            }
         }
         if rng.chance(1, 6) && dt.es.is_some() { json.push("{\"name\":\"zarrs.squeeze\"}".into()); model.push("squeeze".into()); }
         // array -> bytes
@@ -280,6 +287,44 @@ pub fn generate(tier: &str, seed: u64) -> Vec<String> {
         }
     }
     // (nested) sharded chains: see c03c.rs
+    generate_zfp(tier, seed, &mut out);
     out.extend(crate::c03c::generate(tier, seed));
     out
+}
+
+/// `zfp` (own stream): every mode on every data type it accepts, chunks of 1 to 4 dimensions whose extents are and are not
+/// multiples of the 4-wide zfp block. `reversible` must return the original bytes; `fixed_accuracy` a value within the
+/// tolerance (finite floats of moderate magnitude); `fixed_precision` / `fixed_rate` prescribe no tolerance: decoding must
+/// succeed and the declared size must hold. (Unsigned 32/64-bit values above the signed maximum: known finding F-C03-K1.)
+fn generate_zfp(tier: &str, seed: u64, out: &mut Vec<String>) {
+    let mut rng = Rng::new(seed ^ 0xC03_2F9);
+    let n = if tier == "thorough" { 2400 } else { 300 };
+    let types: [(&str, usize); 10] = [("int8", 1), ("uint8", 1), ("int16", 2), ("uint16", 2), ("int32", 4), ("uint32", 4), ("int64", 8), ("uint64", 8), ("float32", 4), ("float64", 8)];
+    for k in 0..n {
+        let (name, es) = *rng.pick(&types);
+        let float = name.starts_with("float");
+        let rank = rng.range(1, 4) as usize;
+        let shape: Vec<u64> = (0..rank).map(|_| *rng.pick(&[1u64, 2, 3, 4, 5, 8, 9])).collect();
+        let nel: u64 = shape.iter().product();
+        let kind = rng.below(5);
+        let elems: Vec<Vec<u8>> = (0..nel).map(|i| {
+            if float {
+                let v = match kind { 0 => (rng.below(2000000) as f64 - 1000000.0) / 128.0, 1 => 2.5, 2 => 0.0, 3 => (i as f64) * 0.25 - 3.0, _ => if rng.chance(1, 2) { 0.0 } else { (rng.below(4096) as f64) / 16.0 } };
+                if name == "float32" { (v as f32).to_le_bytes().to_vec() } else { v.to_le_bytes().to_vec() }
+            } else {
+                let mut b = match kind { 0 => rng.bytes(es), 1 => vec![0x5a; es], 2 => vec![0; es], 3 => { let mut v = vec![0u8; es]; v[0] = (i % 7) as u8; v } _ => vec![0xff; es] };
+                // (uint32 / uint64) values above the signed maximum only in every eighth line: they are the known finding
+                if (name == "uint32" || name == "uint64") && k % 8 != 0 { b[es - 1] &= 0x7f; }
+                b
+            }
+        }).collect();
+        let (spec, cfg) = match rng.below(if float { 6 } else { 4 }) {
+            0 | 1 => ("reversible:0".to_string(), "{\"mode\":\"reversible\"}".to_string()),
+            2 => { let p = rng.range(1, 64); (format!("precision:{}", p), format!("{{\"mode\":\"fixed_precision\",\"precision\":{}}}", p)) }
+            3 => { let r = *rng.pick(&[1u32, 4, 8, 12, 16, 32]); (format!("rate:{}", r), format!("{{\"mode\":\"fixed_rate\",\"rate\":{}}}", r)) }
+            _ => { let (tn, td, t) = *rng.pick(&[(1u32, 2u32, "0.5"), (1, 16, "0.0625"), (1, 1024, "0.0009765625"), (4, 1, "4.0")]); (format!("accuracy:{}:{}", tn, td), format!("{{\"mode\":\"fixed_accuracy\",\"tolerance\":{}}}", t)) }
+        };
+        out.push(format!("c03 codec lossy=zfp:{} dtype={} es={} shape={} fill={} modelled=0 model=zfp json={} data={}", spec, name, es, nl(&shape), hex(&vec![0u8; es]),
+            hex(format!("[{{\"name\":\"zfp\",\"configuration\":{}}}]", cfg).as_bytes()), show_elems(&elems)));
+    }
 }
